@@ -30,6 +30,9 @@ BoolV(b)    == Mk("bool", IF b THEN 1 ELSE 0, "", <<>>, NoMap)
 TrueV       == BoolV(TRUE)
 FalseV      == BoolV(FALSE)
 IntV(n)     == Mk("int", n, "", <<>>, NoMap)
+\* an integer of 10..18 digits (beyond TLC's 32-bit integers): carried as its decimal text, i = 0
+BigIntV(s)  == Mk("int", 0, s, <<>>, NoMap)
+IsBig(v)    == v.t = "int" /\ v.s # ""
 StrV(s)     == Mk("str", 0, s, <<>>, NoMap)
 KwV(s)      == Mk("kw", 0, s, <<>>, NoMap)
 SymV(s)     == Mk("sym", 0, s, <<>>, NoMap)
@@ -79,7 +82,8 @@ StructEq(a, b) ==
        /\ \A k \in DOMAIN a.m : StructEq(a.m[k], b.m[k])
   ELSE IF a.t = "set" THEN DOMAIN a.m = DOMAIN b.m
   ELSE IF a.t \in {"nil"} THEN TRUE
-  ELSE IF a.t \in {"bool", "int"} THEN a.i = b.i
+  ELSE IF a.t = "bool" THEN a.i = b.i
+  ELSE IF a.t = "int" THEN a.i = b.i /\ a.s = b.s
   ELSE IF a.t \in {"str", "kw", "sym"} THEN a.s = b.s
   ELSE a = b
 
